@@ -9,8 +9,8 @@ import random
 from dataclasses import dataclass
 from typing import List, Optional
 
-from adaptix import AdornedRetort, CannotProvide, Chain, P, Provider, ProviderNotFoundError, Retort, bound, dumper, loader
-from adaptix._internal.morphing.request_cls import DumperRequest, LoaderRequest, StrictCoercionRequest
+from adaptix import AdornedRetort, CannotProvide, Chain, DebugTrail, P, Provider, ProviderNotFoundError, Retort, bound, dumper, loader
+from adaptix._internal.morphing.request_cls import DebugTrailRequest, DumperRequest, LoaderRequest, StrictCoercionRequest
 from adaptix._internal.provider.facade.provider import bound_by_any
 from adaptix._internal.provider.request_checkers import AlwaysTrueRequestChecker
 
@@ -146,7 +146,8 @@ class Faulty(Provider):
                 return lambda x: tagd(nxt(x))
             if mode == "optprobe":
                 strict = mediator.mandatory_provide(StrictCoercionRequest(loc_stack=request.loc_stack))
-                return _mark(f"o{int(strict)}", self.idx)
+                trail = mediator.mandatory_provide(DebugTrailRequest(loc_stack=request.loc_stack))
+                return _mark(f"o{int(strict)}{trail.name[0]}", self.idx)
             return _mark("a", self.idx)
         return [(LoaderRequest, AlwaysTrueRequestChecker(), handler),
                 (DumperRequest, AlwaysTrueRequestChecker(), handler)]
@@ -213,7 +214,12 @@ def build_retort(spec, log, inner=None):
     cls = base
     for level, items in enumerate(reversed(spec.get("classes", []))):
         cls = type(f"R{level}", (cls,), {"recipe": [build_item(it, log, inner) for it in items]})
-    kw = {"strict_coercion": spec["opts"]["strict_coercion"]}
+    kw = {"strict_coercion": spec["opts"]["strict_coercion"],
+          "debug_trail": DebugTrail[spec["opts"].get("debug_trail", "ALL")]}
+    if spec.get("mixin"):
+        # a second branch of the class hierarchy: MRO is (own chain ..., mixin, base)
+        mix = type("Mix", (base,), {"recipe": [build_item(it, log, inner) for it in spec["mixin"]]})
+        cls = type("Final", (cls, mix), {})
     return cls(recipe=[build_item(it, log, inner) for it in spec["instance"]], **kw)
 
 
@@ -249,6 +255,7 @@ def flatten(spec):
     items = list(spec["instance"])
     for cls_items in spec.get("classes", []):
         items.extend(cls_items)
+    items.extend(spec.get("mixin") or [])
     return items
 
 
@@ -323,17 +330,20 @@ class Model:
                 tagd = _mark("d", idx)
                 return lambda x, nxt=nxt, tagd=tagd: tagd(nxt(x))
             if kind == "optprobe":
-                return _mark(f"o{int(self.strict(spec, st))}", idx)
+                return _mark(f"o{int(self.strict(spec, st))}{self.opt(spec, st, 'debug_trail')[0]}", idx)
             return _mark("a", idx)
         return self.tail(spec, st, d)
 
-    def strict(self, spec, st):
+    def opt(self, spec, st, name):
         """Option requests walk the same recipe: a retort in the recipe whose predicate matches the
         location serves them from its own options; otherwise the retort's own option applies."""
         for it in flatten(spec):
             if it["kind"] == "retort" and pred_match(it["pred"], st):
-                return self.strict(it["sub"], st)
-        return spec["opts"]["strict_coercion"]
+                return self.opt(it["sub"], st, name)
+        return spec["opts"].get(name, "ALL" if name == "debug_trail" else True)
+
+    def strict(self, spec, st):
+        return self.opt(spec, st, "strict_coercion")
 
     def tail(self, spec, st, d):  # noqa: C901
         if not spec["full"]:
@@ -476,7 +486,8 @@ def gen_items(rng, n, counter, depth=0):
             it["unbound"] = rng.random() < 0.4
             if it["unbound"]:
                 it["pred"] = "ANY"
-            it["sub"] = {"full": rng.random() < 0.5, "opts": {"strict_coercion": rng.random() < 0.5},
+            it["sub"] = {"full": rng.random() < 0.5,
+                         "opts": {"strict_coercion": rng.random() < 0.5, "debug_trail": rng.choice(["ALL", "FIRST", "DISABLE"])},
                          "instance": gen_items(rng, rng.randint(1, 3), counter, 1), "classes": []}
         if multi and it["kind"] not in ("plain", "first", "last", "retort"):
             it["pred"] = "any:" + ";".join(rng.sample(sorted(PREDS), rng.randint(2, 3)))
@@ -491,11 +502,17 @@ def gen(seed, cfg=None):
     n_cls1 = rng.choice([0, 0, 0, 1, 2]) if n > 1 else 0
     n_cls2 = rng.choice([0, 0, 1]) if n_cls1 else 0
     n_inst = max(0, n - n_cls1 - n_cls2)
-    spec = {"full": rng.random() < 0.55, "opts": {"strict_coercion": rng.random() < 0.5},
+    spec = {"full": rng.random() < 0.55,
+            "opts": {"strict_coercion": rng.random() < 0.5, "debug_trail": rng.choice(["ALL", "FIRST", "DISABLE"])},
             "instance": gen_items(rng, n_inst, counter),
             "classes": [c for c in (gen_items(rng, n_cls1, counter), gen_items(rng, n_cls2, counter)) if c]}
+    if spec["classes"] and rng.random() < 0.3:
+        spec["mixin"] = gen_items(rng, rng.randint(1, 2), counter)
     ext = gen_items(rng, rng.randint(1, 2), counter) if rng.random() < 0.3 else None
-    repl = {"strict_coercion": not spec["opts"]["strict_coercion"]} if rng.random() < 0.2 else None
+    repl = None
+    if rng.random() < 0.2:
+        repl = rng.choice([{"strict_coercion": not spec["opts"]["strict_coercion"]},
+                           {"debug_trail": rng.choice([d for d in ("ALL", "FIRST", "DISABLE") if d != spec["opts"]["debug_trail"]])}])
     inner_idx = [it["idx"] for it in flatten(spec) if it["kind"] == "retort"]
     inner_derive = None
     if inner_idx and rng.random() < 0.6:
@@ -540,7 +557,7 @@ def derived_specs(scn):
                     if idv.get("extend"):
                         sub["instance"] = [*idv["extend"], *sub["instance"]]
                     if idv.get("replace"):
-                        sub["opts"] = {"strict_coercion": not sub["opts"]["strict_coercion"]}
+                        sub["opts"] = {**sub["opts"], "strict_coercion": not sub["opts"]["strict_coercion"]}
                     it = {**it, "sub": sub}
                 res.append(it)
             return res
@@ -557,7 +574,7 @@ def execute(scn, refs):  # noqa: C901, PLR0912
     if scn.get("extend"):
         retorts["extended"] = base.extend(recipe=[build_item(it, log) for it in scn["extend"]])
     if scn.get("replace"):
-        retorts["replaced"] = base.replace(**scn["replace"])
+        retorts["replaced"] = base.replace(**{k: (DebugTrail[v] if k == "debug_trail" else v) for k, v in scn["replace"].items()})
     specs = dict(derived_specs(scn))
     idv = scn.get("inner_derive")
     if idv and "inner-derived" in specs and idv["idx"] in built_inner:
@@ -680,6 +697,8 @@ def _map_items(spec, fn):
     s["instance"] = fn(spec["instance"])
     s["classes"] = [fn(c) for c in spec.get("classes", [])]
     s["classes"] = [c for c in s["classes"] if c]
+    if spec.get("mixin"):
+        s["mixin"] = fn(spec["mixin"]) or None
     return s
 
 
@@ -692,11 +711,12 @@ def candidates(scn):  # noqa: C901
     if scn.get("inner_derive"):
         yield {**scn, "inner_derive": None}
     spec = scn["spec"]
-    if spec.get("classes"):
+    if spec.get("classes") or spec.get("mixin"):
         # move class recipes into the instance recipe (same flattened order)
         s = dict(spec)
         s["instance"] = flatten(spec)
         s["classes"] = []
+        s["mixin"] = None
         yield {**scn, "spec": s}
     all_items = flatten(spec)
     for it in reversed(all_items):
@@ -733,6 +753,7 @@ def shape(scn):
         return [f"{it['kind']}:{it['pred']}" + (f"[{','.join(sh(it['sub']['instance']))}]" if it["kind"] == "retort" else "")
                 for it in items]
     return {"instance": sh(scn["spec"]["instance"]), "classes": [sh(c) for c in scn["spec"].get("classes", [])],
+            "mixin": sh(scn["spec"]["mixin"]) if scn["spec"].get("mixin") else None,
             "extend": sh(scn["extend"]) if scn.get("extend") else None, "replace": bool(scn.get("replace")),
             "inner_derive": ({"extend": sh(scn["inner_derive"]["extend"] or []), "replace": bool(scn["inner_derive"]["replace"])}
                              if scn.get("inner_derive") else None),
